@@ -175,7 +175,7 @@ func (hs *HTTPServer) configureHTTPS() error {
 	if hs.config.CertFile == "" && hs.config.KeyFile == "" {
 		hs.log.Info("no TLS certificate provided, using self-signed certificate")
 	} else {
-		hs.log.Debug("loading TLS certificate from %s and %s", hs.config.CertFile, hs.config.KeyFile)
+		hs.log.Debug("loading TLS certificate", "cert", redactDataURI(hs.config.CertFile), "key", redactDataURI(hs.config.KeyFile))
 	}
 
 	hs.srv.TLSConfig = httpsTLSConfigTemplate()
